@@ -102,6 +102,24 @@ check("C12", "model_checking",
       "TLA+ optimiser model checked by TLC + TLA+ reference semantics; generated programs compiled at four optimisation levels and compared",
       "DESIGN.md section 6 C12")
 
+check("C13", "translation_validation",
+      "The target version is a constant of ErgProg.tla's semantics: the expected output does not depend on it. Grid and simulated programs of ErgProg.tla are compiled in-process for each installed target (3.7, 3.9, 3.11 quick; 3.7-3.11 thorough, as `erg --py-command P compile` does), loaded and run by that target's interpreter; stdout and exception class must equal the specification's, hence each other's (CPython as third voter). `erg --py-command P run` is checked through the CLI with a program printing sys.version_info.",
+      "Trusted: TLC; ErgProg.tla/PyVal.tla; the interpreters under /root/.pyenv; programs rejected by the compiler are not judged.",
+      "TLA+ reference semantics with the target as parameter; generated programs compiled and run per target interpreter",
+      "DESIGN.md section 6 C13")
+
+check("C17", "translation_validation",
+      "ErgProg.tla supplies programs whose string literals contain quotes, backslashes, braces and apostrophes besides the rest of the fragment (string-heavy simulated programs, a sample of the grid, one program per string of the palette). Each program is transpiled in-process; whenever a script is produced it must compile as Python for the target interpreter, and running it must print what the compiled bytecode of the same program prints and end with the same exception class / exit status; ErgProg.tla is the third voter naming the wrong side. Declined programs (diagnostic or todo!()) are counted, not judged.",
+      "Trusted: TLC; ErgProg.tla; py/verif/pyrun.py; only programs for which a script is produced are judged.",
+      "TLA+ reference semantics; differential execution of transpiled script vs bytecode with the spec as third voter",
+      "DESIGN.md section 6 C17")
+
+check("C18", "model_checking",
+      "JsonVal.tla derives constant values in prefix form (integers incl. 2**63/2**64, floats, strings with quotes, backslashes, braces, slashes and non-ASCII characters, booleans, None, homogeneous lists, tuples, records, string-keyed dicts) exhaustively to depth 1 (about 600 values) and by simulation to depth 3. Modules binding these values to public names (with a private binding in between) are transpiled in-process with the JSON target; the output must parse with json.loads and map each public binding to its value (tuples as arrays, None as null, numbers by value); private bindings must not appear.",
+      "Trusted: TLC; the structural mapping from derived value trees to expected Python values in py/verif/props/c18.py.",
+      "TLA+ value grammar enumerated by TLC; spec->impl replay through the JSON transpile target with json.loads comparison",
+      "DESIGN.md section 6 C18")
+
 NOT_APPLICABLE = {
     "C16": "static comparison of opcode/magic tables with external ground truth: no state or behaviour for a TLA+ specification to constrain (DESIGN.md section 7)",
     "C27": "data audit of ~150 declaration files against installed interpreters/typeshed: no behaviour to model in TLA+ (DESIGN.md section 7)",
